@@ -238,3 +238,48 @@ void h_ev_spec_compile(void)
 	if (r != 0 && w_sig[2] == '\0') REACH("short signature refused");
 	if (r != 0 && w_sig[1] == ' ' && w_sig[3] == '\0') REACH("blank in the MCV refused");
 }
+
+/* ====================================================================================
+ * parse_signature on signatures WITH an argument list ("MCV(..." / "MCV+(..."), parse_args replaced by
+ * "any verdict, any argument count": the tail of parse_signature -- a refused argument list is refused,
+ * an empty one too, the jumbo mark reaches parse_args (closes observation O13)
+ * ==================================================================================== */
+int g_pa_n, g_pa_ret, g_pa_jumbo; char *g_pa_paren;
+int cr_parse_args_any(struct ev_spec *spec, char *paren)
+/* DFCC asserts this at the call: parse_args is handed the '('; the jumbo flag it sees is recorded */
+__CPROVER_requires(paren[0] == '(' && spec->nargs == 0)
+__CPROVER_assigns(spec->nargs, spec->payload_size, g_pa_n, g_pa_ret, g_pa_jumbo, g_pa_paren)
+__CPROVER_ensures((RET == 0 || RET == -1) && g_pa_ret == RET && g_pa_n == OLD(g_pa_n) + 1 && g_pa_paren == paren && g_pa_jumbo == spec->is_jumbo)
+__CPROVER_ensures(spec->nargs >= 0 && spec->nargs <= MAX_ARGS)
+;
+char w_psig[8];
+WITNESS(parse_signature);
+#define PS(i) (sig[i])
+#define PS_ARGLIST (PS(0) != 0 && PS(1) != 0 && PS(2) != 0 && (PS(3) == '(' || (PS(3) == '+' && PS(4) == '(')))
+int c_parse_signature(struct ev_spec *spec, char *sig)
+__CPROVER_requires(__CPROVER_is_fresh(spec, sizeof(*spec)) && __CPROVER_is_fresh(sig, 8) && sig[7] == '\0' && DIAG_PRE)
+__CPROVER_requires(spec->is_jumbo == 0 && spec->nargs == 0 && spec->payload_size == 0 && g_pa_n == 0)   /* ev_spec_compile: memset */
+__CPROVER_requires(PS_ARGLIST)
+__CPROVER_requires(WBIND(parse_signature, w_psig[0] == PS(0) && w_psig[1] == PS(1) && w_psig[2] == PS(2) && w_psig[3] == PS(3) &&
+	w_psig[4] == PS(4) && w_psig[5] == PS(5)))
+__CPROVER_assigns(__CPROVER_object_whole(spec), DIAG_FRAME, g_pa_n, g_pa_ret, g_pa_jumbo, g_pa_paren)
+__CPROVER_ensures(RET == 0 || RET == -1)
+/* accepted exactly when the MCV is printable, the argument list was accepted and declares an argument */
+__CPROVER_ensures((RET == 0) == ((isgraph(PS(0)) && isgraph(PS(1)) && isgraph(PS(2)) && g_pa_n == 1 && g_pa_ret == 0 && spec->nargs > 0) ? 1 : 0))
+/* the argument list is looked at once at most, from its parenthesis, and only behind a printable MCV */
+__CPROVER_ensures(g_pa_n == 0 || (g_pa_n == 1 && g_pa_paren == sig + (PS(3) == '+' ? 4 : 3) && g_pa_jumbo == (PS(3) == '+' ? 1 : 0) && isgraph(PS(0)) && isgraph(PS(1)) && isgraph(PS(2))))
+__CPROVER_ensures(IMPLIES(RET == 0, spec->mcv[0] == PS(0) && spec->mcv[1] == PS(1) && spec->mcv[2] == PS(2) && spec->mcv[3] == '\0' &&
+	spec->is_jumbo == (PS(3) == '+' ? 1 : 0)))
+__CPROVER_ensures(IMPLIES(RET != 0, g_err > OLD(g_err)))
+;
+void h_parse_signature(void)
+{
+	struct ev_spec *spec; char *sig;
+	WITNESS_ON(parse_signature);
+	int r = parse_signature(spec, sig);
+	if (r == 0 && w_psig[3] == '(') REACH("normal event with arguments accepted");
+	if (r == 0 && w_psig[3] == '+') REACH("jumbo event with arguments accepted");
+	if (r != 0 && g_pa_n == 1 && g_pa_ret != 0) REACH("refused argument list refused");
+	if (r != 0 && g_pa_n == 1 && g_pa_ret == 0) REACH("empty argument list refused");
+	if (r != 0 && g_pa_n == 0) REACH("unprintable MCV refused before the arguments");
+}
